@@ -1130,7 +1130,8 @@ impl Oracle {
     fn packet_completed(&mut self, c: usize, pkt: &CPacket, raw: &[u8]) {
         self.conns[c].packets += 1;
         self.conns[c].just_done = match pkt {
-            CPacket::Publish(p) if p.qos > 0 => Some(raw.to_vec()),
+            // (kept only for packets of ordinary size: the monitor state is copied often)
+            CPacket::Publish(p) if p.qos > 0 && raw.len() <= 1024 => Some(raw.to_vec()),
             CPacket::Ack(a) if a.kind == AckKind::PubRel => Some(raw.to_vec()),
             _ => None,
         };
